@@ -28,7 +28,7 @@ ASSUMPTIONS = [
     "generators never produce non-ASCII digits/whitespace, inf/nan/infinity, hex/octal prefixes or floats that overflow",
     "background values of type CellFormatting/RowFormatting/bytes are not modelled (TOpaque): they cannot come from a file or the environment",
     "dictionary layers carry a string `provenance` label (as cli.py does) or none",
-    "strings handed to toml.dumps avoid control characters and the two-character sequence backslash-x, which toml 0.10.2 cannot dump (see known_findings/C17.json)",
+    "strings handed to toml.dumps avoid control characters, the two-character sequence backslash-x (toml 0.10.2 cannot dump them) and strings made only of double quotes (toml 0.10.2 loads them as the empty string); see known_findings/C17.json",
 ]
 TRUSTED = ["the `toml` package (dump and load of scalars, strings and string arrays)", "platformdirs (state/config directory names)"]
 
@@ -171,13 +171,16 @@ def parse_model_reply(rep):
 # ------------------------------------------------------------------------------ value classes
 SPACE_NAMES = ["32", "32bit", "24", "24bit", "8d", "8bit_diacritic", "8", "8bit", "256", "16", "16d", "16bit", "16bit_diacritic"]
 MEDIUM_NAMES = ["d", "direct", "stream", "f", "file", "t", "temp", "tempfile", "s", "shm"]
-SAFE_CHARS = "abcxyzAUTO019 _-./:,=#'\"\\[]{}é\u00df\u4e2d\U0010eeee\U0001f600"
+SAFE_CHARS = "abcxyzAUTO019 _-./:,=#'[]{}é\u00df\u4e2d\U0010eeee\U0001f600"  # no backslash, no bare double quote: see C17-toml-string-escape
 
 
 def rand_str(rng):
     n = rng.choice([1, 1, 2, 3, 5, 9, 20])
     s = "".join(rng.choice(SAFE_CHARS) for _ in range(n))
-    return s.replace("\\x", "\\y")  # toml 0.10.2 cannot dump backslash-x (known finding C17-toml-escape)
+    s = s.replace("\\x", "\\y")  # toml 0.10.2 cannot dump backslash-x (known finding C17-toml-string-escape)
+    if s.strip('"') == "":
+        s += "q"  # ... and reads a string consisting only of double quotes back as "" (same finding)
+    return s
 
 
 def class_values(rng, klass):
@@ -247,7 +250,7 @@ def class_values(rng, klass):
     if klass == "emptystr":
         return "", "", True
     if klass == "str":
-        s = rand_str(rng)
+        s = rand_str(rng) if rng.random() < 0.9 else rng.choice(['a"b', 'say "hi"', '"quoted"', "it's"])
         return s, s, True
     return None
 
@@ -989,7 +992,7 @@ def check_toml_strings(ctx, cov, tup):
     """strings the `toml` package cannot dump or reload (control characters, backslash-x): the round
     trip clause fails for string options holding them — listed in known_findings/C17.json"""
     C = tup.tupimage_terminal.TupimageConfig
-    for name, s in [("id_database_dir", "/tmp/a\\x41"), ("placeholder_char", "\x7f"), ("id_database_dir", "/tmp/\x1b[0m"), ("background", "\x00")]:
+    for name, s in [("id_database_dir", "/tmp/a\\x41"), ("placeholder_char", "\x7f"), ("id_database_dir", "/tmp/\x1b[0m"), ("background", "\x00"), ("placeholder_char", '"'), ("id_database_dir", "C:\\Users\\x")]:
         cfg = C()
         cfg.override_from_dict({name: s})
         case = {"kind": "tomlstring", "option": name, "value": s}
@@ -1013,7 +1016,7 @@ def tomlstring_violation(tup, name, s):
     except BaseException as e:  # noqa
         how = "dump-or-load-raises"
     return {"signature": {"class": "roundtrip-toml-string-escape", "how": how},
-            "what": f"{name} = {s!r} does not survive to_toml_string + override_from_toml_string ({how}); the `toml` package mishandles control characters and backslash-x",
+            "what": f"{name} = {s!r} does not survive to_toml_string + override_from_toml_string ({how}); the `toml` package mishandles control characters, backslash-x and all-quote strings",
             "case": case}
 
 
